@@ -302,6 +302,11 @@ def _cops():
         "reset": lambda e: e["p"].reset(e["t"]),
         "refresh": lambda e: e["p"].refresh(),
         "adv1_refresh": lambda e: e["p"].update(e["t"], advance=1, refresh=True),
+        "add_a": lambda e: e["ids"].__setitem__("a", e["p"].add_task("a", total=10)),
+        "add_b": lambda e: e["ids"].__setitem__("b", e["p"].add_task("b", total=20)),
+        "adv_a3": lambda e: e["p"].advance(e["ids"]["a"], 3),
+        "adv_b5": lambda e: e["p"].advance(e["ids"]["b"], 5),
+        "stop_start": lambda e: (e["p"].stop_task(e["t"]), e["p"].start_task(e["t"])),
     }
 
 
@@ -315,11 +320,13 @@ CH = {
     "P6": {"A": ["adv1"], "B": ["adv2"], "X": ["refresh"]},
     "P7": {"A": ["adv1_refresh"], "B": ["adv2"]},
     "P8": {"A": ["adv1"], "B": ["upd_adv1"], "X": ["adv2"]},
+    "P9": {"A": ["add_a", "adv_a3"], "B": ["add_b", "adv_b5"]},
+    "P10": {"A": ["adv1"], "B": ["stop_start"]},
 }
 CPLAN = {
-    "quick": [(h, "line", 2) for h in ("P1", "P2", "P3", "P4", "P5", "P7")] + [(h, "line", 1) for h in ("P6", "P8")]
+    "quick": [(h, "line", 2) for h in ("P1", "P2", "P3", "P4", "P5", "P7", "P10")] + [(h, "line", 1) for h in ("P6", "P8", "P9")]
              + [(h, "coarse", 2) for h in CH],
-    "thorough": [(h, "line", 3) for h in ("P1", "P3", "P4", "P5")] + [(h, "line", 2) for h in ("P2", "P6", "P7", "P8")]
+    "thorough": [(h, "line", 3) for h in ("P1", "P3", "P4", "P5")] + [(h, "line", 2) for h in ("P2", "P6", "P7", "P8", "P9", "P10")]
                 + [(h, "coarse", 3) for h in CH],
 }
 _SKIP = {}
@@ -343,14 +350,16 @@ def _cbuild(s):
     p = _mk_progress(clock, terminal=True, file=sched.RecFile())
     t = p.add_task("t", total=3)
     p.start()
-    return {"p": p, "t": t, "clock": clock}
+    return {"p": p, "t": t, "clock": clock, "ids": {}}
 
 
 def _cobserve(env):
     task = env["p"].tasks[0]
+    others = sorted((t.description, t.total, t.completed) for t in env["p"].tasks[1:])
     return {"completed": task.completed, "total": task.total, "finished": task.finished,
             "percentage": task.percentage, "speed": task.speed, "time_remaining": task.time_remaining,
-            "samples": [(s.timestamp, s.completed) for s in task._progress], "started": task.started}
+            "samples": [(s.timestamp, s.completed) for s in task._progress], "started": task.started,
+            "others": others, "ids": sorted(env["ids"].items()), "ntasks": len(env["p"].tasks)}
 
 
 def _cmake(hid):
@@ -401,12 +410,16 @@ def _cjudge(hid, s, obs):
     for tid, e in s.errors:
         v.append(("conc/%s/exception/%s" % (hid, type(e).__name__), "thread %s raised %r" % (tid, e)))
     seq = _cseq(hid)
-    fin = {(o["completed"], o["total"], o["finished"], o["percentage"]) for o in seq}
-    mine = (obs["completed"], obs["total"], obs["finished"], obs["percentage"])
+    fin = {(o["completed"], o["total"], o["finished"], o["percentage"], tuple(o["others"]), o["ntasks"],
+            len(set(i for _, i in o["ids"]))) for o in seq}
+    mine = (obs["completed"], obs["total"], obs["finished"], obs["percentage"], tuple(obs["others"]), obs["ntasks"],
+            len(set(i for _, i in obs["ids"])))
     if mine not in fin:
         key = "conc/%s/not-linearizable" % hid
         if obs["completed"] not in {o["completed"] for o in seq}:
             key = "conc/%s/lost-or-duplicated-update" % hid
+        elif (tuple(obs["others"]), obs["ntasks"]) not in {(tuple(o["others"]), o["ntasks"]) for o in seq}:
+            key = "conc/%s/task-lost-or-mixed-up" % hid
         v.append((key, "final (completed,total,finished,percentage)=%r; sequential orders give %r" % (mine, sorted(fin, key=repr))))
     if obs["speed"] is not None and obs["speed"] < 0:
         v.append(("conc/%s/negative-speed" % hid, "speed %r samples %r" % (obs["speed"], obs["samples"])))
@@ -545,7 +558,7 @@ def describe(tier, seed, res):
         "rule": "sequential: BFS from each of 16 add_task variants over {advance x5, update x17, reset x8, start_task, stop_task, "
                 "tick x2} with dedup on (total, completed, relative start/stop times, finished_time, relative samples); two-task "
                 "BFS at smaller depth; track() over lists/generators of length 0..4 without and (under the scheduler, timeout "
-                "budget 2) with the helper thread. concurrent: harnesses P1..P8 (2-3 threads, mutators on one task) -- every "
+                "budget 2) with the helper thread. concurrent: harnesses P1..P10 (2-3 threads, mutators on one task; P9 two threads each adding and advancing their own task) -- every "
                 "schedule within the preemption bound at bytecode granularity inside the mutators. non-trivial = the task "
                 "finished or has a speed estimate (sequential), every schedule (concurrent); distinct = outcome signatures.",
         "assumptions": [
